@@ -441,6 +441,104 @@ fn run_case(c: &Case, msgs: &[Option<Msg>], seed: u64, st: &mut Stats) {
     st.sample(3, || c.to_json());
 }
 
+#[allow(clippy::too_many_arguments)]
+fn run_fail_case(mi: usize, async_source: bool, k: usize, kind: ErrorKind, async_consumer: bool, tail: usize, msgs: &[Option<Msg>], seed: u64, st: &mut Stats) {
+    st.evaluations += 1;
+    st.traces += 1;
+    let pay = Arc::new(payload_bytes(k + 10, seed));
+    let mon = Monitor::new();
+    let src = ScriptSource::new(pay.clone(), vec![Step::Chunk(k), Step::Error(kind)], mon.clone());
+    let payload = if async_source { IppPayload::new_async(src) } else { IppPayload::new(src) };
+    let (head, rd_sync, rd_async): (Vec<u8>, Option<Box<dyn Read>>, Option<Pin<Box<dyn AsyncRead>>>) = match &msgs[mi] {
+        Some(m) => {
+            let mut req = build_ipp(m);
+            let head = req.to_bytes().to_vec();
+            *req.payload_mut() = payload;
+            if async_consumer {
+                (head, None, Some(Box::pin(req.into_async_read())))
+            } else {
+                (head, Some(Box::new(req.into_read())), None)
+            }
+        }
+        None => {
+            if async_consumer {
+                (vec![], None, Some(Box::pin(payload)))
+            } else {
+                (vec![], Some(Box::new(payload)), None)
+            }
+        }
+    };
+    let mut expected = head.clone();
+    expected.extend_from_slice(&pay);
+    let limit = 2 * expected.len() + 1000;
+    // Ok(bytes, ended_with_error)
+    let r: Result<(Vec<u8>, Option<ErrorKind>), String> = if let Some(mut rd) = rd_sync {
+        match std::panic::catch_unwind(std::panic::AssertUnwindSafe(move || {
+            let mut out = vec![];
+            let mut buf = vec![0u8; tail];
+            for _ in 0..limit {
+                match rd.read(&mut buf) {
+                    Ok(0) => return Ok((out, None)),
+                    Ok(n) => out.extend_from_slice(&buf[..n]),
+                    Err(e) if e.kind() == ErrorKind::Interrupted => continue,
+                    Err(e) => return Ok((out, Some(e.kind()))),
+                }
+            }
+            Err("neither end-of-stream nor an error".to_string())
+        })) {
+            Ok(x) => x,
+            Err(p) => Err(format!("panic: {}", panic_text(p))),
+        }
+    } else {
+        let mut rd = rd_async.unwrap();
+        let fut = async move {
+            let mut out = vec![];
+            let mut buf = vec![0u8; tail];
+            for _ in 0..limit {
+                match rd.read(&mut buf).await {
+                    Ok(0) => return Ok((out, None)),
+                    Ok(n) => out.extend_from_slice(&buf[..n]),
+                    Err(e) => return Ok((out, Some(e.kind()))),
+                }
+            }
+            Err("neither end-of-stream nor an error".to_string())
+        };
+        match std::panic::catch_unwind(std::panic::AssertUnwindSafe(|| run_manual(fut, &mon, 4 * limit + 64, None))) {
+            Ok(Run::Done { value, .. }) => value,
+            Ok(Run::LostWakeup { polls }) => Err(format!("lost wake-up after {} polls", polls)),
+            Ok(Run::Horizon { polls }) => Err(format!("not finished after {} polls", polls)),
+            Err(p) => Err(format!("panic: {}", panic_text(p))),
+        }
+    };
+    st.transitions += mon.calls.load(SeqCst) as u64;
+    st.nontrivial.insert(fnv(format!("{}:{}:{}:{:?}:{}:{}", mi, async_source, k, kind, async_consumer, tail).as_bytes()));
+    let iface = if async_consumer { "async" } else { "blocking" };
+    let srcname = if async_source { "async-source-failing" } else { "blocking-source-failing" };
+    let case = || json!({"msg": mi, "source": srcname, "fails_after": k, "kind": format!("{:?}", kind), "consumer": iface, "buffer": tail, "section": "failing-source"});
+    match r {
+        Ok((got, end)) => {
+            if !expected.starts_with(&got) {
+                st.outcome("differs");
+                st.violate(format!("{}:{}:stream-corrupt", iface, srcname), format!("{}: delivered bytes are not a prefix of header+attributes ++ payload", case()), case());
+            } else if end.is_none() {
+                st.outcome("clean-end");
+                st.violate(
+                    format!("{}:{}:clean-end-of-stream-before-the-payload-ended", iface, srcname),
+                    format!("{}: end-of-stream after {} of {} bytes although the payload source FAILED ({:?}) after {} payload bytes", case(), got.len(), expected.len(), kind, k),
+                    case(),
+                );
+            } else {
+                st.outcome(if got.len() == head.len() + k { "failed-after-everything-delivered" } else { "failed-earlier" });
+            }
+        }
+        Err(e) => {
+            st.outcome("error");
+            st.violate(format!("{}:{}:error", iface, srcname), format!("{}: {}", case(), e), case());
+        }
+    }
+    st.sample(2, case);
+}
+
 pub fn run(ctx: &Ctx) -> ! {
     silence_panics();
     let mut rep = Report::new(
@@ -454,6 +552,26 @@ pub fn run(ctx: &Ctx) -> ! {
     if let Some(p) = &ctx.replay {
         let (_, j) = vmc::report::load_replay(p);
         let mut st = Stats::new();
+        if j["section"].as_str() == Some("failing-source") {
+            let kinds: Vec<ErrorKind> = FAULT_KINDS.iter().copied().chain([ErrorKind::InvalidData, ErrorKind::WriteZero, ErrorKind::NotConnected]).collect();
+            let kind = kinds.iter().copied().find(|k| Some(format!("{:?}", k).as_str()) == j["kind"].as_str()).unwrap_or(ErrorKind::Other);
+            run_fail_case(
+                j["msg"].as_u64().unwrap_or(0) as usize,
+                j["source"].as_str() == Some("async-source-failing"),
+                j["fails_after"].as_u64().unwrap_or(0) as usize,
+                kind,
+                j["consumer"].as_str() == Some("async"),
+                j["buffer"].as_u64().unwrap_or(7) as usize,
+                &msgs,
+                seed,
+                &mut st,
+            );
+            for v in &st.violations {
+                println!("replay: class={} detail={}", v.class, v.detail);
+            }
+            rep.absorb(st);
+            rep.finish();
+        }
         match Case::from_json(&j) {
             Some(c) => run_case(&c, &msgs, seed, &mut st),
             None => {
@@ -535,6 +653,19 @@ pub fn run(ctx: &Ctx) -> ! {
             rep.absorb(p);
         }
     }
+    // failing payload sources: the stream may fail, but it must never present a clean end-of-stream before the
+    // whole payload was delivered, and what it delivered must be a prefix of header+attributes ++ payload
+    let kinds: Vec<ErrorKind> = FAULT_KINDS.iter().copied().chain([ErrorKind::InvalidData, ErrorKind::WriteZero, ErrorKind::NotConnected]).collect();
+    let fail_at: [usize; 5] = [0, 1, 5, 8192, 8193];
+    let radices = [msgs.len() as u64, 2, fail_at.len() as u64, kinds.len() as u64, 2, 2];
+    let mut fs = Stats::new();
+    for p in par_range(ctx.threads, vmc::explore::product(&radices), 16, Stats::new, |st, idx| {
+        let t = vmc::explore::unrank(idx, &radices);
+        run_fail_case(t[0] as usize, t[1] == 1, fail_at[t[2] as usize], kinds[t[3] as usize], t[4] == 1, [7usize, 4096][t[5] as usize], &msgs, seed, st);
+    }) {
+        fs.merge(p);
+    }
+    rep.section("failing-payload-sources", fs);
     rep.set("buffer_size_patterns", json!(patterns.len()));
     rep.finish()
 }
